@@ -5,7 +5,7 @@
    of lost / late replies (the choice between LHit and LTimeout), any wake-up order, cancellation anywhere.
    The tie to the code is trace acceptance: the real engine's event stream must be accepted (tools/props/C06.py). *)
 From Coq Require Import ZArith List Bool.
-Require Import GV.Model.Request GV.Proofs.RequestP.
+Require Import GV.Model.Request GV.Proofs.RequestP GV.Model.RequestW GV.Proofs.RequestWP.
 Import ListNotations.
 Open Scope Z_scope.
 
@@ -58,3 +58,26 @@ Theorem c06_no_query_while_gate_closed_refuted :
   option_map stale_retries (run CFG init w_stale_retry) = Some 1 /\
   option_map unguarded_sends (run CFG init w_unguarded) = Some 1.
 Proof. exact no_query_while_gate_closed_refuted. Qed.
+
+(* ---------- all complete, with times (Model/RequestW.v: the same events with the clock read at every call and cancellation;
+   accepted only when the clock never runs backwards, a holder never goes silent for longer than its next allowed moment, a
+   structure download holds the lock at most cS, and the lock is handed over within one scheduling slot) ---------- *)
+(* whatever the timed layer accepts the engine acceptor accepts: every theorem above holds for its event stream *)
+Theorem c06_timed_layer_refines_engine : forall c cS ws s g s' g', wrun c cS (s, g) ws = Some (s', g') -> run c s (inner ws) = Some s'.
+Proof. exact inner_accepted. Qed.
+(* a caller that arrives when the clock shows [clock g] is promised the lock by: the later of its arrival and the moment the lock
+   must be free of its present holder, plus - for every caller queued ahead - one scheduling slot and that caller's own time bound
+   (retry-count x (timeout + pause + slots) for a simple call), plus one slot *)
+Theorem c06_promise_bounded : forall c cS ws k s' g', cfg_ok c -> 0 <= cS -> wrun c cS (init, ginit) (ws ++ [WL (LCall k)]) = Some (s', g') ->
+  exists s g e, wrun c cS (init, ginit) ws = Some (s, g) /\ wq g' = wq g ++ [e] /\ we_call e = k /\ we_arr e = clock g /\
+    we_prom e <= Z.max (free_by c cS s g) (clock g) + load c cS (wq g) + cJ c.
+Proof. exact promise_bounded. Qed.
+(* the promise stays attached to the caller unchanged until it is served or cancelled ... *)
+Theorem c06_promise_not_rewritten : forall c cS s g w s' g', wstep c cS (s, g) w = Some (s', g') ->
+  forall e, In e (wq g') -> In e (wq g) \/ exists k, w = WL (LCall k) /\ we_call e = k /\ we_arr e = clock g.
+Proof. exact entries_persist. Qed.
+(* ... and every grant of the lock keeps it, for any number of callers, arrival times, losses, cancellations of waiters or holders *)
+Theorem c06_grant_keeps_promise : forall c cS ws i t x, cfg_ok c -> 0 <= cS ->
+  wrun c cS (init, ginit) (ws ++ [WL (LAcquire i t)]) = Some x ->
+  exists s g w r, wrun c cS (init, ginit) ws = Some (s, g) /\ wq g = w :: r /\ c_id (we_call w) = i /\ we_arr w <= t <= we_prom w.
+Proof. exact grant_keeps_promise. Qed.
